@@ -93,7 +93,9 @@ func genHistory(r *gen.Rng) []histOp {
 	return h
 }
 
-func junkPaths() Paths { return Paths{{{X: 777, Y: 777}, {X: 778, Y: 779}, {X: 770, Y: 790}}, {{X: 1, Y: 2}}} }
+func junkPaths() Paths {
+	return Paths{{{X: 777, Y: 777}, {X: 778, Y: 779}, {X: 770, Y: 790}}, {{X: 1, Y: 2}}}
+}
 
 func scratchDirty(s clip.VerifScratchState) string {
 	if s.Scanlines != 0 || s.Outrecs != 0 || s.HorzSegs != 0 || s.HorzJoins != 0 || s.Intersects != 0 || !s.ActivesNil {
@@ -512,7 +514,9 @@ func c12Immut(ctx *run.Ctx, id run.CaseID, r *gen.Rng) {
 		{"MinkowskiDiff64", func() { clip.MinkowskiDiff64(subj[0], clp[0], r.Bool()) }},
 		{"RectClipPaths64", func() { clip.RectClipPaths64(q.lib(), subj) }},
 		{"RectClipLinesPaths64", func() { clip.RectClipLinesPaths64(q.lib(), open) }},
-		{"RectClipPathsD", func() { clip.RectClipPathsD(clip.NewRectD(float64(q.L)/10, float64(q.T)/10, float64(q.R)/10, float64(q.B)/10), sD, 1) }},
+		{"RectClipPathsD", func() {
+			clip.RectClipPathsD(clip.NewRectD(float64(q.L)/10, float64(q.T)/10, float64(q.R)/10, float64(q.B)/10), sD, 1)
+		}},
 		{"TrimCollinear64", func() { clip.TrimCollinear64(subj[0], r.Bool()) }},
 		{"SimplifyPath64", func() { clip.SimplifyPath64(subj[0], 2, r.Bool()) }},
 		{"SimplifyPaths64", func() { clip.SimplifyPaths64(subj, 1, r.Bool()) }},
